@@ -66,6 +66,50 @@ def svd_clause(model, rep, funcs):
         rep.ob("DU", g.anchor, "transform subtracts mean_ and projects on components_.T", ok, "", node=g.node, fn=g, clause="transform", stmt="def transform body")
 
 
+def solver_clause(model, rep, funcs):
+    """Equality with an exact SVD needs an exact solver: which solver can reach _fit for the classifier's PCA?"""
+    i = funcs.get(C + "__init__")
+    if i is None:
+        return
+    pcs = [c for c in calls_in(i) if (dotted(c.func) or "") in ("PCA", "DaskPCA")]
+    rep.instance("DU.solver", i.loc())
+    if len(pcs) != 1:
+        rep.ob("DU", i.anchor, "the classifier builds one PCA estimator", None, f"{len(pcs)} constructor calls", node=i.node, fn=i, clause="fit", stmt="PCA ctor")
+        return
+    sv = kwarg(pcs[0], "svd_solver")
+    solver = sv.value if isinstance(sv, ast.Constant) else None
+    if sv is None:
+        try:
+            di = model.func(P + "__init__")
+            a = di.node.args
+            names = [x.arg for x in a.args]
+            defaults = dict(zip(names[len(names) - len(a.defaults):], a.defaults))
+            d = defaults.get("svd_solver")
+            solver = d.value if isinstance(d, ast.Constant) else None
+        except Exception:
+            solver = None
+    ok = None
+    det = f"svd_solver = {solver!r}"
+    if solver in ("full", "tsqr"):
+        ok = True
+    elif solver == "randomized":
+        ok, det = False, "svd_solver='randomized' is an approximation (svd_compressed), not the exact decomposition"
+    elif solver == "auto":
+        gs = None
+        try:
+            gs = model.func(P + "_get_solver")
+        except Exception:
+            pass
+        if gs is not None:
+            rnd = [n for n in walk_no_nested(gs.node) if isinstance(n, ast.Assign) and isinstance(n.value, ast.Constant) and n.value.value == "randomized"]
+            ok = not rnd
+            if rnd:
+                det = ("svd_solver defaults to 'auto', and _get_solver switches to 'randomized' (da.linalg.svd_compressed) as soon as max(n_samples, n_features) > 500 and "
+                       "n_components < 0.8*min(...): components, singular values and projections are then approximations, not those of the exact SVD")
+    rep.ob("DU", i.anchor, "the decomposition behind the classifier is an exact SVD (solver 'full'/'tsqr') for every stack size", ok, det, node=pcs[0], fn=i, clause="fit",
+           stmt="PCA solver")
+
+
 def classifier_clause(model, rep, funcs):
     f = funcs.get(C + "run")
     if f is not None:
@@ -128,6 +172,11 @@ def labels_clause(model, rep, funcs):
            node=(effs[0].node if effs else f.node), fn=f, clause="labels", stmt=(None if effs else "classify pure"))
     clf = [c for c in calls_in(f) if (dotted(c.func) or "") == "PcaClassifier"]
     okk = len(clf) == 1 and bool(ok)
+    # the options of classify reach the model whose masked_difference builds the stack
+    mc = [c for c in calls_in(f) if (dotted(c.func) or "") == "ZNCCAlignment"]
+    okopt = len(mc) == 1 and norm_src(kwarg(mc[0], "cutoff") or ast.Constant(None)) == "cutoff" and norm_src(kwarg(mc[0], "tilt") or ast.Constant(None)) == "tilt"
+    rep.ob("SLOT", f.anchor, "cutoff and tilt given to classify reach the alignment model that computes the wedge-masked differences", okopt,
+           norm_src(mc[0])[:100] if mc else "no ZNCCAlignment(...) call", node=(mc[0] if mc else f.node), fn=f, clause="labels", stmt="classify model options")
     for c_ in clf:
         swapped_argument_obligations(model, rep, f, c_, "classifier")
     rep.ob("SLOT", f.anchor, "the classifier is run on the difference stack with the model's mask", okk, "", node=f.node, fn=f, clause="labels", stmt="classify clf")
@@ -176,5 +225,6 @@ def check(model, rep, tier):
     rep.not_decided += ["equality with an exact SVD (numerical)", "cluster separation (statistical)", "sign of components"]
     funcs = need_funcs(model, rep, ANCHORS)
     svd_clause(model, rep, funcs)
+    solver_clause(model, rep, funcs)
     classifier_clause(model, rep, funcs)
     labels_clause(model, rep, funcs)
